@@ -175,12 +175,15 @@ package util
 //@   modifies nothing
 
 //@ ghost var lastPidOut float64
+//@ ghost var pidSteps int
 //@ pure clamp01(x float64) float64 = x > 1.0 ? 1.0 : (x < 0.0 ? 0.0 : x)
 //@ func (*PidLoop).Loop
 //@   props C01
 //@   ghostret lastPidOut := result
+//@   ghostdo pidSteps := pidSteps + 1
 //@   ensures same(lastPidOut, result)
-//@   modifies p.integral, p.error, p.lastTime, lastPidOut
+//@   ensures pidSteps == old(pidSteps) + 1
+//@   modifies p.integral, p.error, p.lastTime, lastPidOut, pidSteps
 
 //@ extern func errors.Is(err error, target error) (b bool)
 //@   effectfree
